@@ -242,8 +242,10 @@ def build(tree):
     cfg.set_command_resolver(DefaultResolver())
     cfg.set_io_factory(lambda app, args, i, o, e: IO(Input(i), Output(o), Output(e)))
     cfgs = []
+    no_aliases = []  # ONE list object handed to every command as its initial aliases (a loop over a common base list)
     for i, (p, kind, prof) in enumerate(tree):
         c = CommandConfig(NAMES[i])
+        c.set_aliases(no_aliases)
         if kind == ALIASED:
             c.add_alias(ALIASES[i])
         if kind in (DEFAULT, DEFHID):
